@@ -267,8 +267,6 @@ impl<'arena, 'input: 'arena> Lexer<'arena, 'input> {
             } else if c == b'\\' {
                 has_escape = true;
                 if buffer.is_empty() {
-                    // A literal ends on its line, so the rest of the line bounds its length.
-                    buffer.reserve_exact(newline);
                     // SAFETY: beg..pos is valid UTF-8 because we only process valid string content
                     let string = unsafe { str::from_utf8_unchecked(&self.src[beg..pos]) };
                     buffer.push_str(string);
